@@ -4,6 +4,7 @@ import (
 	_ "embed"
 	"encoding/hex"
 	"fmt"
+	"math/big"
 	mrand "math/rand"
 	"strings"
 	"time"
@@ -199,6 +200,11 @@ func richHonest(r *mrand.Rand) *world.World {
 		// serial numbers are scoped by issuer: the Root CA CRL may list the serial the leaf has under the platform CA, and the
 		// PCK CRL the serials that the platform CA and the TCB signer have under the root
 		w.MakeCRLs(append(world.Unrelated(r, nrev), w.PKI.Leaf.Cert.SerialNumber), append(world.Unrelated(r, nrev), w.PKI.Inter.Cert.SerialNumber, w.PKI.TcbSign.Cert.SerialNumber))
+	} else if r.Intn(4) == 0 {
+		// a CRL entry's serial is an INTEGER and may be negative: -N, N+1 and N shifted by a byte are not N
+		neg := func(c *world.Cert) *big.Int { return new(big.Int).Neg(c.Cert.SerialNumber) }
+		up := func(c *world.Cert) *big.Int { return new(big.Int).Add(c.Cert.SerialNumber, big.NewInt(1)) }
+		w.MakeCRLs(append(world.Unrelated(r, nrev), neg(w.PKI.Inter), neg(w.PKI.TcbSign), up(w.PKI.Inter)), append(world.Unrelated(r, nrev), neg(w.PKI.Leaf), up(w.PKI.Leaf), new(big.Int).Lsh(w.PKI.Leaf.Cert.SerialNumber, 8)))
 	}
 	switch r.Intn(8) {
 	case 0: // CRLs without the optional extensions (no cRLNumber, no authorityKeyIdentifier)
